@@ -236,7 +236,11 @@ func builtinNumberToLocaleString(call FunctionCall) Value {
 	locale := call.Argument(0)
 	lang := defaultLanguage
 	if locale.IsDefined() {
-		lang = language.MustParse(locale.string())
+		tag, err := language.Parse(locale.string())
+		if err != nil {
+			panic(call.runtime.panicRangeError("Incorrect locale information provided"))
+		}
+		lang = tag
 	}
 
 	p := message.NewPrinter(lang)
